@@ -55,7 +55,7 @@ def build(rng, case):
     n = int(rng.integers(1, 15)) if not many else int(rng.integers(12, 40))
     nt = int(rng.integers(1, 5)) if not many else int(rng.integers(10, 31))
     pool = atomsgen.ELEMENT_POOL if not many else [e for e in masses if e not in ("Cm", "Bk")][:60]
-    els = [pool[int(i)] for i in rng.choice(len(pool), size=nt, replace=False)]
+    els = [pool[int(i)] for i in rng.choice(len(pool), size=nt, replace=bool(rng.integers(3) == 0))]   # one in three: types share elements
     a, b, c = rng.uniform(6, 20, 3)
     if case["cell"] == "ortho":
         cell = np.diag([a, b, c])
